@@ -49,6 +49,12 @@ func GoStringN(p *int8, n int) string {
 	return string((*[1 << 30]byte)(unsafe.Pointer(p))[:n:n])
 }
 
+// GoBytes returns a copy of the n bytes at p: like C.GoString, the result must
+// not change (or dangle) when C reuses or frees its buffer.
 func GoBytes(p *int8, n int) []byte {
-	return (*[1 << 30]byte)(unsafe.Pointer(p))[:n:n]
+	b := make([]byte, n)
+	if n > 0 {
+		c.Memcpy(unsafe.Pointer(&b[0]), unsafe.Pointer(p), uintptr(n))
+	}
+	return b
 }
